@@ -21,9 +21,9 @@ def features(rng):
     return F
 
 
-def special(rng):
+def special(rng, force=None):
     """translucent groups inside translucent groups with overlapping children: which groups may be flattened"""
-    if rng.random() > 0.15:
+    if force is None and rng.random() > 0.15:
         return None
     def rect(x, y, col, extra=""):
         return '<rect x="%d" y="%d" width="40" height="40" fill="%s"%s/>' % (x, y, col, extra)
@@ -41,6 +41,7 @@ def special(rng):
 
 
 P = RenderProp(features, "color", n_quick=110, n_thorough=700, special=special)
+P.firsts = [1, 1, 1, 1, 1, 1]
 correspondence = P.correspondence
 search = P.search
 replay = P.replay
